@@ -210,6 +210,9 @@ def match_known(prop, sig):
 
 
 def write_evidence(prop, tier, level, coverage, wall, violations=0, assumptions=None):
+    global EVID
+    if prop.startswith('X') and not EVID.endswith('extra'):
+        EVID = os.path.join(EVID, 'extra')      # checks beyond the listed properties keep their evidence apart
     os.makedirs(EVID, exist_ok=True)
     ev = dict(property_id=prop, tier=tier, seed=seed(), level=level, coverage=coverage,
               wall_s=round(wall, 2), violations=violations, assumptions=assumptions or [])
